@@ -298,10 +298,10 @@ theorem runFlowMod_buffers (h : FlowModH) (s : SwitchState) (xid command : Nat) 
   | delete => rfl
   | deleteStrict => rfl
 
-theorem rxFlowMod_ok (s : SwitchState) (xid command : Nat) (mk : MKey) (prio cookie flags idle hard outPort : Nat)
+theorem rxFlowModBody_ok (s : SwitchState) (xid command : Nat) (mk : MKey) (prio cookie flags idle hard outPort : Nat)
     (b : Option Nat) (acts : List Act) (hs : actsInScope acts) :
-    ∃ s' o, rxFlowMod s xid command mk prio cookie flags idle hard outPort b acts = .ok (s', o) ∧ ∀ r ∈ o, ReplyOK xid r := by
-  unfold rxFlowMod
+    ∃ s' o, rxFlowModBody s xid command mk prio cookie flags idle hard outPort b acts = .ok (s', o) ∧ ∀ r ∈ o, ReplyOK xid r := by
+  unfold rxFlowModBody
   cases hl : flowModTable.lookup command with
   | none =>
     refine ⟨s, _, rfl, ?_⟩
@@ -640,10 +640,10 @@ theorem runFlowMod_fixed (h : FlowModH) (s : SwitchState) (xid command : Nat) (m
   | delete => rfl
   | deleteStrict => rfl
 
-theorem rxFlowMod_fixed {s s' : SwitchState} {xid command : Nat} {mk : MKey} {prio cookie flags idle hard outPort : Nat}
+theorem rxFlowModBody_fixed {s s' : SwitchState} {xid command : Nat} {mk : MKey} {prio cookie flags idle hard outPort : Nat}
     {b : Option Nat} {acts : List Act} {o : List Reply}
-    (h : rxFlowMod s xid command mk prio cookie flags idle hard outPort b acts = .ok (s', o)) : fixedOf s' = fixedOf s := by
-  unfold rxFlowMod at h
+    (h : rxFlowModBody s xid command mk prio cookie flags idle hard outPort b acts = .ok (s', o)) : fixedOf s' = fixedOf s := by
+  unfold rxFlowModBody at h
   cases hl : flowModTable.lookup command with
   | none => rw [hl] at h; simp only at h; injection h with h; injection h with h1 _; subst h1; rfl
   | some hd =>
@@ -884,10 +884,10 @@ theorem runFlowMod_fit (h : FlowModH) (s : SwitchState) (xid command : Nat) (mk 
   | delete => exact hdel false
   | deleteStrict => exact hdel true
 
-theorem rxFlowMod_fit {s s' : SwitchState} {xid command : Nat} {mk : MKey} {prio cookie flags idle hard outPort : Nat}
+theorem rxFlowModBody_fit {s s' : SwitchState} {xid command : Nat} {mk : MKey} {prio cookie flags idle hard outPort : Nat}
     {b : Option Nat} {acts : List Act} {o : List Reply} (ha : 88 + actsLenOf acts ≤ partLimit) (hs : FlowsFit s)
-    (h : rxFlowMod s xid command mk prio cookie flags idle hard outPort b acts = .ok (s', o)) : FlowsFit s' := by
-  unfold rxFlowMod at h
+    (h : rxFlowModBody s xid command mk prio cookie flags idle hard outPort b acts = .ok (s', o)) : FlowsFit s' := by
+  unfold rxFlowModBody at h
   cases hl : flowModTable.lookup command with
   | none => rw [hl] at h; simp only at h; injection h with h; injection h with h1 _; subst h1; exact hs
   | some hd =>
@@ -919,5 +919,47 @@ theorem rxPortMod_table (s : SwitchState) (xid portNo hw config mask : Nat) :
 
 theorem rxHello_table (s : SwitchState) : (rxHello s).1.table = s.table := by
   unfold rxHello; split <;> rfl
+
+/-! #### the action pre-check in front of the flow-mod handlers -/
+
+theorem rxFlowMod_ok (s : SwitchState) (xid command : Nat) (mk : MKey) (prio cookie flags idle hard outPort : Nat)
+    (b : Option Nat) (acts : List Act) (hs : actsInScope acts) :
+    ∃ s' o, rxFlowMod s xid command mk prio cookie flags idle hard outPort b acts = .ok (s', o) ∧ ∀ r ∈ o, ReplyOK xid r := by
+  unfold rxFlowMod
+  split
+  · refine ⟨s, _, rfl, ?_⟩
+    intro r hr
+    simp only [List.mem_singleton] at hr
+    exact .inr ⟨_, _, hr⟩
+  · exact rxFlowModBody_ok s xid command mk prio cookie flags idle hard outPort b acts hs
+
+theorem rxFlowMod_fixed {s s' : SwitchState} {xid command : Nat} {mk : MKey} {prio cookie flags idle hard outPort : Nat}
+    {b : Option Nat} {acts : List Act} {o : List Reply}
+    (h : rxFlowMod s xid command mk prio cookie flags idle hard outPort b acts = .ok (s', o)) : fixedOf s' = fixedOf s := by
+  unfold rxFlowMod at h
+  split at h
+  · injection h with h; injection h with h1 _; subst h1; rfl
+  · exact rxFlowModBody_fixed h
+
+theorem rxFlowMod_fit {s s' : SwitchState} {xid command : Nat} {mk : MKey} {prio cookie flags idle hard outPort : Nat}
+    {b : Option Nat} {acts : List Act} {o : List Reply} (ha : 88 + actsLenOf acts ≤ partLimit) (hs : FlowsFit s)
+    (h : rxFlowMod s xid command mk prio cookie flags idle hard outPort b acts = .ok (s', o)) : FlowsFit s' := by
+  unfold rxFlowMod at h
+  split at h
+  · injection h with h; injection h with h1 _; subst h1; exact hs
+  · exact rxFlowModBody_fit ha hs h
+
+/-- with every action type supported the pre-check passes -/
+theorem badActions_false {command : Nat} {acts : List Act} (hk : ∀ a ∈ acts, (actionTable.lookup a.ty).isSome = true) :
+    badActions command acts = false := by
+  unfold badActions
+  have : (acts.any fun a => (actionTable.lookup a.ty).isNone) = false := by
+    rw [List.any_eq_false]
+    intro a ha
+    have := hk a ha
+    cases hl : actionTable.lookup a.ty with
+    | none => rw [hl] at this; cases this
+    | some _ => simp
+  rw [this]; simp
 
 end Pox.SwitchReq
